@@ -287,11 +287,15 @@ Section XSec.
                bytes_eqb (bs "Type") k = false -> bytes_eqb RefWriter.K_Size k = false -> bytes_eqb (bs "W") k = false ->
                bytes_eqb (bs "Index") k = false -> bytes_eqb RefWriter.K_Length k = false -> bytes_eqb K_PrevW k = false ->
                dict_get (a_trailer a) k = None -> dict_get xq_t k = None) /\
-    dict_wf xq_t /\ NoDup (map fst xq_numb).
+    dict_wf xq_t /\ NoDup (map fst xq_numb) /\
+    (forall k, bytes_eqb k Xref.K_Index || bytes_eqb k Xref.K_W || bytes_eqb k Obj.K_Length = false -> dict_get xq_t k = dict_get xq_dd k) /\
+    (forall k, bytes_eqb (bs "Type") k = false -> bytes_eqb RefWriter.K_Size k = false -> bytes_eqb (bs "W") k = false ->
+               bytes_eqb (bs "Index") k = false -> bytes_eqb RefWriter.K_Length k = false ->
+               dict_get xq_d k = match dict_get (a_trailer a) k with Some v => Some v | None => dict_get prevl k end).
   Lemma xq_all : xq_facts.
   Proof.
     split; [exact xq_top_ok|]. split; [exact xq_parse|]. split; [exact xq_t_prev|]. split; [exact xq_t_none|].
-    split; [exact xq_t_wf|exact xq_numb_nodup].
+    split; [exact xq_t_wf|]. split; [exact xq_numb_nodup|]. split; [exact xq_t_get|exact xq_get_other].
   Qed.
 End XSec.
 
